@@ -104,6 +104,38 @@ theorem dedup_spec (key : Row → Row) (rows : List Row) :
     (∀ r ∈ rows, ∃ r' ∈ dedupBy key rows, key r' = key r ∧ rows.find? (fun x => key x == key r) = some r') :=
   dedup_ok key rows
 
+theorem dropCols_names_aux (names : List String) (drop : List String) (k : Nat) :
+    ((names.zipIdx k).filter fun (p : String × Nat) => !drop.contains p.1).map (·.1) =
+      names.filter (fun n => !drop.contains n) := by
+  induction names generalizing k with
+  | nil => rfl
+  | cons a t ih =>
+    simp only [List.zipIdx_cons, List.filter_cons]
+    split
+    · simp only [List.map_cons]; rw [ih]
+    · exact ih _
+
+-- OBLIGATION: PysparklingVerif.C12.drop_every_column_of_that_name
+/-- `drop(names)` removes EVERY column that carries one of the names (also when several columns carry it: after a join, a
+rename onto an existing name, an alias) and keeps the others in their order; a name no column carries changes nothing -/
+theorem drop_every_column_of_that_name (names cols : List String) (rows : List Row) :
+    (dropCols names cols rows).1 = names.filter (fun n => !cols.contains n) ∧
+    (∀ n ∈ (dropCols names cols rows).1, n ∉ cols) ∧
+    ((∀ c ∈ cols, c ∉ names) → (dropCols names cols rows).1 = names) := by
+  have h : (dropCols names cols rows).1 = names.filter (fun n => !cols.contains n) := by
+    unfold dropCols
+    exact dropCols_names_aux names cols 0
+  refine ⟨h, ?_, ?_⟩
+  · intro n hn
+    rw [h, List.mem_filter] at hn
+    simpa using hn.2
+  · intro hc
+    rw [h, List.filter_eq_self]
+    intro n hn
+    simp only [Bool.not_eq_true', List.contains_eq_mem, decide_eq_false_iff_not]
+    intro hmem
+    exact hc n hmem hn
+
 -- OBLIGATION: PysparklingVerif.C12.withColumn_spec
 /-- withColumn appends a new column, or replaces the existing column of that name in place -/
 theorem withColumn_spec (names : List String) (name : String) (e : Expr) (rows : List Row)
